@@ -1,0 +1,60 @@
+//go:build verif
+
+package stateless
+
+import (
+	cmttypes "github.com/cometbft/cometbft/types"
+
+	"github.com/oasisprotocol/oasis-core/go/common/crypto/hash"
+	consensusAPI "github.com/oasisprotocol/oasis-core/go/consensus/api"
+	"github.com/oasisprotocol/oasis-core/go/consensus/api/transaction"
+	"github.com/oasisprotocol/oasis-core/go/consensus/cometbft/api"
+)
+
+// This file exposes the package-private, pure verification functions of the stateless
+// consensus backend to the external verification harness. It only exists in builds with
+// the `verif` tag; every function is a plain call of the private function it names.
+
+// VerifVerifyBlock verifies a provider's block against a light block (verifyBlock).
+func VerifVerifyBlock(blk *consensusAPI.Block, lb *cmttypes.LightBlock) error {
+	return verifyBlock(blk, lb)
+}
+
+// VerifVerifyBlockResults verifies a provider's block results against the results hash taken
+// from the next light block (the pure part of Core.verifyBlockResults).
+func VerifVerifyBlockResults(results *consensusAPI.BlockResults, resultsHash []byte, lb *cmttypes.LightBlock) (*api.BlockResultsMeta, error) {
+	return verifyBlockResults(results, resultsHash, lb)
+}
+
+// VerifVerifyTransactions verifies a provider's transaction list against a light block.
+func VerifVerifyTransactions(txs [][]byte, lb *cmttypes.LightBlock) error {
+	return verifyTransactions(txs, lb)
+}
+
+// VerifTransactionsWithProofs builds the inclusion proofs the node hands out.
+func VerifTransactionsWithProofs(txs [][]byte) *consensusAPI.TransactionsWithProofs {
+	return transactionsWithProofs(txs)
+}
+
+// VerifVerifyTransactionProof verifies a transaction inclusion proof against a light block.
+func VerifVerifyTransactionProof(proof *transaction.Proof, tx *transaction.SignedTransaction, lb *cmttypes.LightBlock) error {
+	return verifyTransactionProof(proof, tx, lb)
+}
+
+// VerifVerifyNextValidators verifies a provider's validator set for height lb.Height+1 against
+// a light block. The method does not touch its receiver.
+func VerifVerifyNextValidators(validators *consensusAPI.Validators, lb *cmttypes.LightBlock) error {
+	var c *Core
+	return c.verifyNextValidators(validators, lb)
+}
+
+// VerifStateRootFromBlockTxs extracts the state root from the block metadata transaction of a
+// (previously verified) transaction list.
+func VerifStateRootFromBlockTxs(txs [][]byte) (hash.Hash, error) {
+	return stateRootFromBlockTxs(txs)
+}
+
+// VerifStateRootFromMetaTx extracts the state root from a block metadata transaction.
+func VerifStateRootFromMetaTx(metaTx []byte) (hash.Hash, error) {
+	return stateRootFromMetaTx(metaTx)
+}
